@@ -1,4 +1,105 @@
+import IpcHub.Drv.Util
+import IpcHub.Model.MuxInst
 namespace IpcHub.Drv.C19
-/-- placeholder: no model built for this property yet -/
-def handle (_ : List String) : String := "bad-op"
+open IpcHub.Patricia IpcHub.Sniffer IpcHub.MuxSpec IpcHub.MuxInst IpcHub.Drv
+
+/-- list of byte strings: "-" = empty list, elements separated by ',', "~" = empty string -/
+def parseList (s : String) : Option (List Bytes) :=
+  if s = "-" then some [] else
+  (s.splitOn ",").mapM (fun e => if e = "~" then some [] else hexToBytes e)
+
+def showList (l : List Bytes) : String :=
+  if l.isEmpty then "-" else ",".intercalate (l.map (fun b => if b.isEmpty then "~" else bytesToHex b))
+
+def parseErr (s : String) : Option Err :=
+  if s = "e" then some .eof else if s = "t" then some .timeout else if s = "o" then some .other else none
+
+def parseEv (s : String) : Option Ev :=
+  match s.toList with
+  | 'd' :: r => (String.ofList r).toNat?.map Ev.deliver
+  | 'f' :: r => (parseErr (String.ofList r)).map Ev.fail
+  | 'x' :: r =>
+    match (String.ofList r).splitOn "." with
+    | [n, e] => match n.toNat?, parseErr e with
+      | some n, some e => some (.deliverFail n e)
+      | _, _ => none
+    | _ => none
+  | _ => none
+
+def parseEvs (s : String) : Option (List Ev) :=
+  if s = "-" then some [] else (s.splitOn ",").mapM parseEv
+
+def parseNats (s : String) : Option (List Nat) :=
+  if s = "-" then some [] else (s.splitOn ",").mapM (·.toNat?)
+
+def parseOp (s : String) : Option Op :=
+  match s.toList with
+  | ['S'] => some .start
+  | ['D'] => some .done
+  | 'r' :: r => (String.ofList r).toNat?.map Op.read
+  | _ => none
+
+def parseOps (s : String) : Option (List Op) :=
+  if s = "-" then some [] else (s.splitOn ",").mapM parseOp
+
+def showErr : Option Err → String
+  | none => "-"
+  | some .eof => "eof"
+  | some .timeout => "timeout"
+  | some .other => "other"
+  | some .unexpectedEOF => "ueof"
+  | some .hang => "hang"
+
+def showReads (l : List (Bytes × Option Err)) : String :=
+  if l.isEmpty then "-" else ";".intercalate (l.map (fun p => bytesToHex p.1 ++ ":" ++ showErr p.2))
+
+def showViews (l : List Bytes) : String :=
+  if l.isEmpty then "-" else ";".intercalate (l.map bytesToHex)
+
+def showProto : Proto → String
+  | .rtsp => "rtsp" | .http => "http" | .none => "closed"
+
+def handle : List String → String
+  | ["pt", mode, strs, input] =>
+    match parseList strs, hexToBytes input with
+    | some ss, some inp =>
+      let t := newTree ss
+      let pm := mode = "p"
+      let spec := if pm then ss.any (fun s => s.isPrefixOf inp) else ss.contains inp
+      s!"match={boolStr (t.matchInput inp pm)} spec={boolStr spec} depth={t.maxDepth}"
+    | _, _ => "bad-op"
+  | ["split", strs] =>
+    match parseList strs with
+    | some ss => let r := splitPrefix ss; s!"prefix={bytesToHex r.1} rest={showList r.2}"
+    | none => "bad-op"
+  | ["mux", stream, evs, sizes] =>
+    match hexToBytes stream, parseEvs evs, parseNats sizes with
+    | some s, some evs, some ks =>
+      match genServe s evs with
+      | .error _ => "panic"
+      | .ok r =>
+        let head := s!"route={showProto (svcOfRoute r.route)} views={showViews r.views}"
+        match r.route with
+        | .closed => s!"{head} reads=- direct=0 closed=1 deadline={boolStr r.st.deadline}"
+        | .service _ =>
+          match svcReads r.st ks r.evs [] with
+          | .error _ => "panic"
+          | .ok (outs, st, _) =>
+            s!"{head} reads={showReads outs} direct={boolStr st.direct} closed={boolStr st.closed} deadline={boolStr st.deadline}"
+    | _, _, _ => "bad-op"
+  | ["ops", stream, evs, ops] =>
+    match hexToBytes stream, parseEvs evs, parseOps ops with
+    | some s, some evs, some ops =>
+      match runOps { st := { rem := s }, evs := evs } ops with
+      | .error _ => "panic"
+      | .ok tr =>
+        s!"outs={showReads tr.outs.reverse} buf={tr.st.buffer.length} br={tr.st.bufferRead} bs={tr.st.bufferSize} sniffing={boolStr tr.st.sniffing} direct={boolStr tr.st.direct}"
+    | _, _, _ => "bad-op"
+  | ["cls", m, t, v] =>
+    match hexToBytes m, hexToBytes t, hexToBytes v with
+    | some m, some t, some v =>
+      s!"spec={showProto (classify m t v)} ext={boolStr (extendsListed m)} tok={boolStr (tokenOK m)}"
+    | _, _, _ => "bad-op"
+  | _ => "bad-op"
+
 end IpcHub.Drv.C19
